@@ -186,7 +186,7 @@ func (c C11Case) supi(valid string) string {
 	case "imsi-only":
 		return "imsi-"
 	case "unknown":
-		return "imsi-000" + valid[8:]
+		return "imsi-555" + valid[8:]
 	}
 	return valid
 }
@@ -304,7 +304,7 @@ func judgeC11(c C11Case) *h.Verdict {
 	v := &h.Verdict{}
 	c.classify(v)
 	valid := env.NewSupi()
-	env.SetAccount(valid, 1, 1000000, "2")
+	acctSet(valid, 1, 1000000, "2")
 	chargingIDSeq++
 	cid := chargingIDSeq
 	ref := ""
@@ -404,7 +404,7 @@ func judgeC11(c C11Case) *h.Verdict {
 		c2, _, hd := doHTTP("POST", prefix+"/chargingdata", c.body(supi, chargingIDSeq, 3), nil)
 		if c2 == 201 {
 			hdLoc = refOf(hd.Get("Location"))
-			env.SetAccount(supi, 1, 100000, "2")
+			acctSet(supi, 1, 100000, "2")
 			norm := C11Case{Route: "update", Mcc: "208", Mnc: "93", Q: "ONLINE_CHARGING"}
 			for _, verb := range []string{"update", "release"} {
 				_ = verifapi.LoggedErrors()
